@@ -42,7 +42,7 @@ func ctlEvents(lines []hookLine) (evs []brk.TraceEv, natt, nkeys int, err error)
 		}
 	}
 	sort.Slice(st, func(i, j int) bool { return st[i].Seq < st[j].Seq })
-	ids := map[uint64]int{}  // real attempt -> specification attempt
+	ids := map[uint64]int{}   // real attempt -> specification attempt
 	ioIDs := map[string]int{} // /io key -> id of its input half
 	keys := map[string]string{"": ""}
 	next := 1
